@@ -22,7 +22,7 @@ BENIGN_PROPS = {
 
 
 def sh(cmd):
-    return subprocess.run(cmd, shell=True, capture_output=True, text=True, env=env)
+    return subprocess.run(cmd, shell=True, capture_output=True, text=True, errors="replace", env=env)
 
 
 def reset():
